@@ -179,7 +179,7 @@ def check_template(tpl):
                 WF12 = inter(sM.WF((1, 2)), z3.Concat(z3.Star(S1), K2))
                 if tpl.get("domain"):
                     WF12 = inter(WF12, DOMAINS[tpl["domain"]](M))
-                LM = tM.lang(east, K2, (1,), (1, 2))
+                LM = rx.lang_at_start(tM, east, K2, (1,), (1, 2))
             if "AEM" in lem or "TWIN" in lem:
                 SM = sM.seq(pattern, K2, (1,))
             if "AEM" in lem:
@@ -221,14 +221,16 @@ def check_template(tpl):
                 obligation("TWIN", "-", "refuted" if "sat" in (v1, v2) else "NOT-REFUTED")
 
             if "SA" in lem or "HX" in lem or "VAL" in lem:
-                L0 = tU.lang(east, U.ANY, (0,), (0,))
+                L0 = rx.lang_at_start(tU, east, U.ANY, (0,), (0,))
+                CTX0, rest0 = rx.left_context(tU, east)
+                L0mid = tU.lang(rest0, U.ANY, (0,), (0,))  # match of the body at a position whose left context satisfies CTX0
                 WF0 = sU.WF((0,))
                 HEX0 = sU.HEX((0,))
                 import regex as _regex
 
                 creal = _regex.compile(regex_text)
             if "SA" in lem:
-                v, w = q.check(inter(WF0, z3.Concat(comp(z3.Concat(WF0, z3.Star(HEX0))), L0)))
+                v, w = q.check(inter(WF0, z3.Concat(inter(comp(z3.Concat(WF0, z3.Star(HEX0))), CTX0), L0mid)))
                 if v == "sat":
                     stream, _ = U.decode(w)[0], None
                     bad = None
@@ -240,7 +242,7 @@ def check_template(tpl):
                 else:
                     obligation("SA", "-", v, w if v == "unknown" else None)
             if "HX" in lem:
-                v, w = q.check(inter(WF0, z3.Concat(z3.Plus(HEX0), L0), comp(L0)))
+                v, w = q.check(inter(WF0, z3.Concat(inter(z3.Plus(HEX0), CTX0), L0mid), comp(L0)))
                 if v == "sat":
                     stream = U.decode(w)[0]
                     bad = None
